@@ -97,7 +97,7 @@ struct C10 : Scenario {
 		p.seti("canary", 1);
 		p.seti("euid", rng.chance(1, 2) ? 0 : 1000);
 		int n = 1 + (int) rng.below(6);
-		std::vector<std::string> linknames;
+		std::vector<std::string> linknames, usednames;
 		// scripted shape, one run in twelve: a chain of harmless links leading to a directory, entries written through the
 		// chain, and then one link of the chain replaced by a dangerous one (names alias each other, so "longest path
 		// first" alone does not order the deferred links)
@@ -144,6 +144,7 @@ struct C10 : Scenario {
 			if (pat == 0 && !linknames.empty()) fixed = rng.pick(linknames) + "/passwd";           // write below an earlier link
 			if (pat == 1 && !linknames.empty()) fixed = rng.pick(linknames);                         // same name as an earlier link
 			if (pat == 2 && !linknames.empty()) { fixed = rng.pick(linknames) + "/sub"; ks = 4; }   // link below a link
+			if (pat == 3 && !usednames.empty()) fixed = rng.pick(usednames);   // one name as file, then as directory, then as link
 			if (!script.empty()) fixed.clear();
 			if (!fixed.empty()) path = to_bytes(fixed);
 			if (ks >= 7) {
@@ -160,6 +161,7 @@ struct C10 : Scenario {
 			if (!script.empty() && m.kind == 'l') target = script[i].target;
 			m.gtarget = target;
 			std::string pstr = to_str(path);
+			{ std::string bare = pstr; while (!bare.empty() && (bare.back() == '/' || bare.back() == '\\' || (unsigned char) bare.back() == 0xff)) bare.pop_back(); if (!bare.empty()) usednames.push_back(bare); }
 			if (m.kind == 'l') { linknames.push_back(pstr); pstr += "|" + target; }
 			m.gname = pstr;   // ground truth is not used by this oracle; kept for the plan summary
 			// encode: in-header (levels 0/1) or extended headers (1-3); separators as generated
@@ -197,8 +199,8 @@ struct C10 : Scenario {
 				cmd += wd[rng.below(8)];
 			}
 		} else {
-			static const char *ro[] = {"l", "v", "t", "p", "xn", "en", "pn", "tn", "lv", "vv", "tq", "pq", "xfn", "xnw=out"};
-			cmd = ro[rng.below(14)];
+			static const char *ro[] = {"l", "v", "t", "p", "xn", "en", "pn", "tn", "lv", "vv", "tq", "pq", "xfn", "xnw=out", "xniw=out", "eniw=new/sub/dir", "xnfiw=/w/x/y/root/fresh", "tiw=out", "pqiw=out", "xnqw=a/b"};
+			cmd = ro[rng.below(20)];
 		}
 		p.argv = {"lha", cmd, "/w/a.lzh"};
 		if (rng.chance(1, 6)) p.argv.push_back(rng.chance(1, 2) ? "*" : "*a*");
